@@ -151,7 +151,13 @@ func (g *swGen) match(e *swExp, prefix string, nfields int) []byte {
 func (g *swGen) actions(n int) []byte {
 	x := nb()
 	for i := 0; i < n; i++ {
-		switch g.r.Intn(7) {
+		switch g.r.Intn(10) {
+		case 7: // set_nw_ttl / set_mpls_ttl: ttl and 3 bytes of padding
+			x.u16([]int{23, 15}[g.r.Intn(2)], 8).u8(int(g.u(255))).z(3)
+		case 8: // header-only actions: copy_ttl_out, copy_ttl_in, dec_mpls_ttl, dec_nw_ttl, pop_vlan, pop_pbb
+			x.u16([]int{11, 12, 16, 24, 18, 27}[g.r.Intn(6)], 8).z(4)
+		case 9: // pop_mpls / push_mpls / push_pbb
+			x.u16([]int{20, 19, 26}[g.r.Intn(3)], 8).u16([]int{0x0800, 0x8847, 0x88e7}[g.r.Intn(3)]).z(2)
 		case 5, 6: // set_field: 4-byte action header, one OXM TLV, zero padding to a multiple of 8
 			d := swOxms[g.r.Intn(len(swOxms))]
 			val := g.bytes(d.width)
@@ -183,7 +189,11 @@ func (g *swGen) actions(n int) []byte {
 func (g *swGen) instructions(n int) []byte {
 	x := nb()
 	for i := 0; i < n; i++ {
-		switch g.r.Intn(4) {
+		switch g.r.Intn(6) {
+		case 4:
+			x.u16(6, 8).u32(uint32(g.u(0xffff0000))) // meter
+		case 5:
+			x.u16(5, 8).z(4) // clear_actions
 		case 0:
 			x.u16(1, 8).u8(int(g.u(254))).z(3) // goto_table
 		case 1:
@@ -335,12 +345,9 @@ func (g *swGen) packetOf(e *swExp, prefix string, choice int) []byte {
 		}
 		if useHbh {
 			setNext(0)
-			chain = append(chain, nb().u8(nextAfterHbh, 0).hex("010400000000").b...)
+			chain = append(chain, nb().u8(nextAfterHbh, 0).raw(g.hbhOptions(e, p+".HbhHeader")).b...)
 			e.num(p+".HbhHeader.NextHeader", uint64(nextAfterHbh))
 			e.num(p+".HbhHeader.HEL", 0)
-			e.count(p+".HbhHeader.Options", 1)
-			e.num(p+".HbhHeader.Options.0.Type", 1)
-			e.num(p+".HbhHeader.Options.0.Length", 4)
 		}
 		if useFrag {
 			setNext(44)
@@ -414,6 +421,37 @@ func (g *swGen) packetOf(e *swExp, prefix string, choice int) []byte {
 	return x.b
 }
 
+// hbhOptions: the 6 option bytes of a minimal hop-by-hop header: PadN(4) | Pad1, PadN(3) | router alert, Pad1, Pad1
+func (g *swGen) hbhOptions(e *swExp, p string) []byte {
+	type opt struct {
+		ty, ln int
+		data   []byte
+	}
+	var opts []opt
+	switch g.r.Intn(3) {
+	case 0:
+		opts = []opt{{1, 4, make([]byte, 4)}}
+	case 1:
+		opts = []opt{{0, 0, nil}, {1, 3, make([]byte, 3)}}
+	default:
+		opts = []opt{{5, 2, []byte{0, byte(g.r.Intn(3))}}, {0, 0, nil}, {0, 0, nil}}
+	}
+	x := nb()
+	for i, o := range opts {
+		q := fmt.Sprintf("%s.Options.%d", p, i)
+		e.num(q+".Type", uint64(o.ty))
+		if o.ty == 0 {
+			x.u8(0) // Pad1: a single byte
+			continue
+		}
+		x.u8(o.ty, o.ln).raw(o.data)
+		e.num(q+".Length", uint64(o.ln))
+		e.raw(q+".Data", o.data)
+	}
+	e.count(p+".Options", len(opts))
+	return x.b
+}
+
 // ipv6AnyOrder: hop-by-hop, routing and fragment headers (each at most once) in a random order before the payload
 func (g *swGen) ipv6AnyOrder(e *swExp, prefix string, x *msgBB, tc, fl, hl int, sip, dip []byte) []byte {
 	p := prefix + ".Data"
@@ -429,10 +467,9 @@ func (g *swGen) ipv6AnyOrder(e *swExp, prefix string, x *msgBB, tc, fl, hl int, 
 		}
 		switch k {
 		case 0:
-			chain = append(chain, nb().u8(next, 0).hex("010400000000").b...)
+			chain = append(chain, nb().u8(next, 0).raw(g.hbhOptions(e, p+".HbhHeader")).b...)
 			e.num(p+".HbhHeader.NextHeader", uint64(next))
 			e.num(p+".HbhHeader.HEL", 0)
-			e.count(p+".HbhHeader.Options", 1)
 		case 43:
 			seg := g.bytes(16)
 			left := g.r.Intn(2)
@@ -900,17 +937,18 @@ func (g *swGen) header(k int) (kind string, b []byte, exp string) {
 		rem := total - 2
 		i := 0
 		for rem > 0 {
-			l := 0
-			if rem >= 2 {
-				l = g.r.Intn(min(rem-1, 254))
-				if rem-2-l == 1 { // never leave a single byte
-					l++
-				}
+			p := fmt.Sprintf("Options.%d", i)
+			if rem == 1 || g.r.Intn(6) == 0 { // Pad1: a lone type byte
+				x.u8(0)
+				e.num(p+".Type", 0)
+				rem--
+				i++
+				continue
 			}
+			l := g.r.Intn(min(rem-1, 254))
 			d := g.bytes(l)
 			ty := 1 + g.r.Intn(200)
 			x.u8(ty, l).raw(d)
-			p := fmt.Sprintf("Options.%d", i)
 			e.num(p+".Type", uint64(ty))
 			e.num(p+".Length", uint64(l))
 			e.raw(p+".Data", d)
@@ -967,6 +1005,24 @@ func init() {
 		}
 		return dumpV(p) + " " + l + " " + hx(b)
 	}
+	// embedw <kind> <hex backing> <len>: the value decoded from a conformant wire image is self-consistent; its encoding
+	// must contain the complete encodings of its children (C06 on packet headers, whose fields applications fill in)
+	runners["embedw"] = func(a []string) string {
+		t, ok := typeReg[a[0]]
+		if !ok {
+			return "notype"
+		}
+		p := reflect.New(t)
+		data := backingOf(a[1], a[2])
+		if res := p.MethodByName("UnmarshalBinary").Call([]reflect.Value{reflect.ValueOf(data)}); !res[0].IsNil() {
+			return "err"
+		}
+		n := 0
+		if msg := embedCheck(p, "v", &n, 0); msg != "" {
+			return "FAIL " + msg
+		}
+		return fmt.Sprintf("ok %d", n)
+	}
 	ofGens = append(ofGens, func(c *Ctx) {
 		g := &swGen{r: c.rng}
 		per := 40
@@ -989,6 +1045,7 @@ func init() {
 					back = append(back, 0xd0+byte(j))
 				}
 				c.run("pk", kind, hx(back), len(b), exp)
+				c.run("embedw", kind, hx(back), len(b))
 			}
 		}
 	})
